@@ -626,7 +626,9 @@ def run_endpoints(ctx, glue="flask"):
         # hostile headers
         for h in ["", "Basic", "Basic ", "Basic !!!", "Basic " + base64.b64encode(b"\xff\xfe:\x00").decode(), basic("c1", "\"\\"), basic("é", "日本"), basic("c1", ""),
                   basic("", ""), basic("c1:x", "s1"), "Bearer", "Bearer ", "Bearer \"", "Bearer AT AT", "bearer AT", "Bearer " + "x" * 5000, "Digest x", "Basic " + "A" * 5001,
-                  "Bearer \xe9", "Basic Og==", "Basic " + base64.b64encode(b"c1").decode(), "Bearer a\\b"]:
+                  "Bearer \xe9", "Basic Og==", "Basic " + base64.b64encode(b"c1").decode(), "Bearer a\\b",
+                  # characters outside ASCII in the Basic token itself (b64decode answers a str like this with a plain ValueError)
+                  "Basic caf\xe9", "Basic YzE6c2Vj\xe9", "Basic \xe9" + base64.b64encode(b"c1:sec").decode()]:
             hd = dict(headers)
             hd["Authorization"] = h
             variants.append(("authz-header", dict(params), hd, None, None, None))
